@@ -1,7 +1,7 @@
 """Build the flex under test from /repo's current working tree, out of tree.
 
-Reproduces src/Makefile.am's bootstrap (mkskel -> bison -> stage0 with the seed
-scan.c -> stage1scan.c -> flex -> stage2scan.c, cmp) in a scratch directory and
+Reproduces src/Makefile.am's bootstrap (mkskel -> bison -> stage0 with scan.c from the
+system lex -> stage1scan.c -> flex -> stage2scan.c, cmp) in a scratch directory and
 caches the result under /verif/.cache keyed by a hash of the sources.
 """
 import hashlib, os, re, shutil, subprocess, sys, tempfile, fcntl, glob
@@ -67,7 +67,7 @@ def tree_hash():
         if os.path.exists(extra):
             with open(extra, "rb") as fh:
                 h.update(fh.read())
-    h.update(b"build-v3")
+    h.update(b"build-v4")
     return h.hexdigest()[:20]
 
 
@@ -102,7 +102,14 @@ def _build(dest, flavour):
             if not os.path.exists(cfg):
                 cfg = os.path.join(VERIF, "seeds", "config.h")
             shutil.copy2(cfg, os.path.join(work, "config.h"))
-            shutil.copy2(os.path.join(VERIF, "seeds", "scan.c"), os.path.join(work, "seedscan.c"))
+            # stage 0 scanner: as src/Makefile does, from the current scan.l with the system's lex ($(LEX), flex 2.6.4 here), so
+            # that scan.l and the generator's C files always agree; the frozen copy in seeds/ is the fallback without a system lex
+            lex = shutil.which("flex") or shutil.which("lex")
+            if lex:
+                if _run([lex, "-o", "seedscan.c", "scan.l"], work, log, env) != 0:
+                    raise BuildError("the system lex failed on scan.l")
+            else:
+                shutil.copy2(os.path.join(VERIF, "seeds", "scan.c"), os.path.join(work, "seedscan.c"))
             ver = version()
             for lang in ("cpp", "c99", "go"):
                 with open(os.path.join(work, lang + "-flex.h"), "w") as out:
